@@ -76,9 +76,9 @@ assignment of the target attribute on the delegate — same outcome, same events
 the target's validator, changes nothing but that attribute of the delegate object, and changes nothing
 at all when the validator rejects. -/
 theorem C11_delegates_write (E : Env) (i : Nat) (p : Pool) (o : ObjId) (n : Name) (d : DelegInfo) (y : ObjId)
-    (vid : Nat) (dflt v : Val)
+    (vid : Nat) (dflt : Val) (cmp : Cmp) (v : Val)
     (htd : (p.obj o).cls.trait n = .defer d) (hm : d.modify = true) (hy : (p.obj o).deleg = some y)
-    (hx : (p.obj y).cls.trait (targetName (p.obj o).cls.pfx n d) = .plain vid dflt) :
+    (hx : (p.obj y).cls.trait (targetName (p.obj o).cls.pfx n d) = .plain vid dflt cmp) :
     let t := targetName (p.obj o).cls.pfx n d
     step E i p (.set o n v) = step E i p (.set y t v) ∧
     (∀ e, E.validate vid i v = .error e →
@@ -87,9 +87,9 @@ theorem C11_delegates_write (E : Env) (i : Nat) (p : Pool) (o : ObjId) (n : Name
     (∀ w, E.validate vid i v = .ok w →
         (step E i p (.set o n v)).pool = p.setDict y t (some w) ∧ (step E i p (.set o n v)).res = .ok none) := by
   intro t
-  have hstep : step E i p (.set o n v) = setPlain E i p y t vid dflt v := by
+  have hstep : step E i p (.set o n v) = setPlain E i p y t vid dflt cmp v := by
     simp only [step, htd, setDefer]
-    have hw : walk p (p.obj o).cls.pfx 100 o d n = .ok (y, t, .plain vid dflt) := by
+    have hw : walk p (p.obj o).cls.pfx 100 o d n = .ok (y, t, .plain vid dflt cmp) := by
       have := walk_end (p := p) (q := (p.obj o).cls.pfx) (f := 99) (d := d) (da := n) hy
         (by show NonDefer ((p.obj y).cls.trait (targetName (p.obj o).cls.pfx n d)); rw [hx]; intro d'; simp)
       rw [this]
@@ -165,18 +165,21 @@ theorem C11_write_star_chain_fails :
 `(x, t)` (validator `vid`): the value is validated by *that* trait's validator; on rejection nothing
 changes; on success the validated value is stored on the deferring object only (every other object, and
 every other attribute, is untouched: the prototype keeps its value), the forwarder is removed (link
-broken), the handlers of the attribute are told `(old value read through the link, new value)`, and the
+broken), the handlers of the attribute are told `(old value read through the link, new value)` — unless
+the new value is the very object read through the link and the prototype's trait does not have
+comparison mode none: an equal but distinct value IS reported, whatever the comparison mode — and the
 attribute reads as the assigned value from then on. -/
 theorem C11_prototype_assign (E : Env) (i : Nat) (p : Pool) (o : ObjId) (n : Name) (d : DelegInfo)
-    (x : ObjId) (t : Name) (vid : Nat) (dflt v : Val)
+    (x : ObjId) (t : Name) (vid : Nat) (dflt : Val) (cmp : Cmp) (v : Val)
     (htd : (p.obj o).cls.trait n = .defer d) (hm : d.modify = false)
-    (hw : walk p (p.obj o).cls.pfx 100 o d n = .ok (x, t, .plain vid dflt)) :
-    (p.obj x).cls.trait t = .plain vid dflt ∧
+    (hw : walk p (p.obj o).cls.pfx 100 o d n = .ok (x, t, .plain vid dflt cmp)) :
+    (p.obj x).cls.trait t = .plain vid dflt cmp ∧
     (∀ e, E.validate vid i v = .error e → step E i p (.set o n v) = fail p e) ∧
     (∀ w old, E.validate vid i v = .ok w → read p p.fuel o n = .ok old →
       let s := step E i p (.set o n v)
       s.pool = unlink (p.setDict o n (some w)) o n ∧ s.res = .ok none ∧
-      s.events = (if old ≠ w then notify (p.setDict o n (some w)) (p.setDict o n (some w)).fuel o n old w else []) ∧
+      s.events = (if cChanged cmp old w then notify (p.setDict o n (some w)) (p.setDict o n (some w)).fuel o n old w
+                  else []) ∧
       (s.pool.obj o).fwd n = none ∧
       (∀ f, read s.pool (f + 1) o n = .ok w) ∧
       (∀ j m, ¬(j = o ∧ m = n) → (s.pool.obj j).dict m = (p.obj j).dict m)) := by
@@ -186,7 +189,7 @@ theorem C11_prototype_assign (E : Env) (i : Nat) (p : Pool) (o : ObjId) (n : Nam
     rfl
   · intro w old hv hr s
     have hs : s = { pool := unlink (p.setDict o n (some w)) o n, res := .ok none,
-                    events := if old ≠ w then notify (p.setDict o n (some w)) (p.setDict o n (some w)).fuel o n old w
+                    events := if cChanged cmp old w then notify (p.setDict o n (some w)) (p.setDict o n (some w)).fuel o n old w
                               else [] } := by
       simp only [s, step, htd, setDefer, hw, hm, hv, hr]
       rfl
@@ -214,9 +217,9 @@ typed attribute) removes the value; unless the operation raised after deleting (
 through the link failed, see `C11_hooks_never_fail`) it succeeds and re-installs the forwarder hooked on
 the current delegate; in both cases the attribute reads through the delegate again. -/
 theorem C11_prototype_del_relinks (E : Env) (i : Nat) (p : Pool) (I : Inv p) (o : ObjId) (n : Name) (d : DelegInfo)
-    (x : ObjId) (t : Name) (vid : Nat) (dflt old : Val)
+    (x : ObjId) (t : Name) (vid : Nat) (dflt : Val) (cmp : Cmp) (old : Val)
     (htd : (p.obj o).cls.trait n = .defer d) (hm : d.modify = false)
-    (hw : walk p (p.obj o).cls.pfx 100 o d n = .ok (x, t, .plain vid dflt))
+    (hw : walk p (p.obj o).cls.pfx 100 o d n = .ok (x, t, .plain vid dflt cmp))
     (hloc : (p.obj o).dict n = some old) :
     let s := step E i p (.del o n)
     (s.pool.obj o).dict n = none ∧
@@ -275,31 +278,31 @@ theorem C11_prototype (E : Env) (cs : List Cls) (hwf : ∀ c ∈ cs, ClsWF c) (o
     (p.obj o).cls.trait n = .defer d → d.modify = false →
     ((p.obj o).dict n = none → ∀ y, (p.obj o).deleg = some y →
         ∀ f, read p (f + 1) o n = read p f y (targetName (p.obj o).cls.pfx n d)) ∧
-    (∀ x t vid dflt, walk p (p.obj o).cls.pfx 100 o d n = .ok (x, t, .plain vid dflt) →
-      (p.obj x).cls.trait t = .plain vid dflt ∧
+    (∀ x t vid dflt cmp, walk p (p.obj o).cls.pfx 100 o d n = .ok (x, t, .plain vid dflt cmp) →
+      (p.obj x).cls.trait t = .plain vid dflt cmp ∧
       ∀ i v,
         (∀ e, E.validate vid i v = .error e → step E i p (.set o n v) = fail p e) ∧
         (∀ w old, E.validate vid i v = .ok w → read p p.fuel o n = .ok old →
           ∀ (ops' : List Op) (k' : Nat), (∀ op ∈ ops', op.touches o n = false) →
             ∀ f, read (runPool E k' (step E i p (.set o n v)).pool ops') (f + 1) o n = .ok w)) ∧
-    (∀ x t vid dflt old i, walk p (p.obj o).cls.pfx 100 o d n = .ok (x, t, .plain vid dflt) →
+    (∀ x t vid dflt cmp old i, walk p (p.obj o).cls.pfx 100 o d n = .ok (x, t, .plain vid dflt cmp) →
       (p.obj o).dict n = some old →
       ((step E i p (.del o n)).pool.obj o).dict n = none ∧
       ∀ y, (p.obj o).deleg = some y → ∀ f, read (step E i p (.del o n)).pool (f + 1) o n
         = read (step E i p (.del o n)).pool f y (targetName (p.obj o).cls.pfx n d)) := by
   intro p htd hm
   have I : Inv p := runPool_inv E ops k _ (mkPool_inv cs hwf)
-  refine ⟨fun hd y hy f => ?_, fun x t vid dflt hw => ?_, fun x t vid dflt old i hw hloc => ?_⟩
+  refine ⟨fun hd y hy f => ?_, fun x t vid dflt cmp hw => ?_, fun x t vid dflt cmp old i hw hloc => ?_⟩
   · simp only [Model.Deleg.read, hd, htd, hy]
   · refine ⟨(walk_ok hw).1.symm, fun i v => ?_⟩
-    obtain ⟨_, h2, h3⟩ := C11_prototype_assign E i p o n d x t vid dflt v htd hm hw
+    obtain ⟨_, h2, h3⟩ := C11_prototype_assign E i p o n d x t vid dflt cmp v htd hm hw
     refine ⟨h2, fun w old hv hr ops' k' hnt f => ?_⟩
     obtain ⟨hpool, _, _, _, _, _⟩ := h3 w old hv hr
     have hcls : ((step E i p (.set o n v)).pool.obj o).cls.trait n = .defer d := by
       rw [(effect_frame (step_effect E i p (.set o n v))).2 o]; exact htd
     refine C11_prototype_independent E _ o n d w hcls ?_ ops' k' hnt f
     rw [hpool]; simp only [unlink_dict, setDict_dict]; simp
-  · obtain ⟨h1, _, h3⟩ := C11_prototype_del_relinks E i p I o n d x t vid dflt old htd hm hw hloc
+  · obtain ⟨h1, _, h3⟩ := C11_prototype_del_relinks E i p I o n d x t vid dflt cmp old htd hm hw hloc
     exact ⟨h1, h3⟩
 
 /-! ## Re-pointing the delegate -/
@@ -370,10 +373,10 @@ prefix of the top object, ending in a typed attribute: assignment through a Dele
 top is the assignment of the attribute at the end of the chain (validated there, stored there, notified
 from there), and afterwards the top attribute reads as the attribute at the end. -/
 theorem C11_chain_write (E : Env) (i : Nat) (p : Pool) (k : Nat) (o : ObjId) (n : Name) (d : DelegInfo)
-    (x : ObjId) (t : Name) (vid : Nat) (dflt v : Val)
+    (x : ObjId) (t : Name) (vid : Nat) (dflt : Val) (cmp : Cmp) (v : Val)
     (hc : Chain p (StarAgree p (p.obj o).cls.pfx) (k + 1) o n x t) (hk : k + 1 ≤ 100)
     (htd : (p.obj o).cls.trait n = .defer d) (hm : d.modify = true)
-    (hx : (p.obj x).cls.trait t = .plain vid dflt) :
+    (hx : (p.obj x).cls.trait t = .plain vid dflt cmp) :
     step E i p (.set o n v) = step E i p (.set x t v) := by
   have hnd : NonDefer ((p.obj x).cls.trait t) := by rw [hx]; intro d'; simp
   have hw := wchain_walk hnd k o n d 100 htd (chain_wchain hc) hk
@@ -456,34 +459,69 @@ theorem C11_notify_no_del (E : Env) (cs : List Cls) (hok : ∀ c ∈ cs, ClsOK c
   intro p ho htd hl hy
   exact (C11_notify E cs hok ops (noBrokenDel_of_no_del E ops 0 _ hnd) o n d y ho htd hl hy).2.1
 
-/-- The same, seen from an assignment: in a state where the links are hooked, assigning the (typed)
-target attribute on the current delegate a value that differs from the old one puts the event
-`(o, n, old, new)` among the events of the operation. -/
+/-- **The deferring attribute's handlers hear exactly the changes the target's trait reports.**  In a
+state where the links are hooked, assigning the (typed, any comparison mode) target attribute on the
+current delegate: when the target reports the change (`fires`: comparison mode none — always; identity
+— the new value is another object; equality — it is another object and not `==` the old one) the
+operation's events start with the target's own event and contain `(o, n, old, new)`; when the target
+does not report it (the same object again, or an equal value under comparison mode equality) nobody is
+notified.  In particular an equal-but-distinct value on an identity / none target IS reported to the
+handlers of the deferring attribute. -/
 theorem C11_notify_on_assign (E : Env) (i : Nat) (p : Pool) (I : Inv p) (L : Linked p) (o : ObjId) (n : Name)
-    (d : DelegInfo) (y : ObjId) (vid : Nat) (dflt v w : Val)
+    (d : DelegInfo) (y : ObjId) (vid : Nat) (dflt : Val) (cmp : Cmp) (v w : Val)
     (ho : o < p.size) (hcls : ClsOK (p.obj o).cls)
     (htd : (p.obj o).cls.trait n = .defer d) (hd : (p.obj o).dict n = none) (hy : (p.obj o).deleg = some y)
-    (hx : (p.obj y).cls.trait (targetName (p.obj o).cls.pfx n d) = .plain vid dflt)
-    (hv : E.validate vid i v = .ok w)
-    (hch : ((p.obj y).dict (targetName (p.obj o).cls.pfx n d)).getD dflt ≠ w) :
-    (⟨o, n, ((p.obj y).dict (targetName (p.obj o).cls.pfx n d)).getD dflt, w⟩ : Event)
-      ∈ (step E i p (.set y (targetName (p.obj o).cls.pfx n d) v)).events := by
-  have he := step_effect E i p (.set y (targetName (p.obj o).cls.pfx n d) v)
-  have hs : step E i p (.set y (targetName (p.obj o).cls.pfx n d) v) =
-      setPlain E i p y (targetName (p.obj o).cls.pfx n d) vid dflt v := by simp only [step, hx]
-  rw [hs] at he ⊢
-  simp only [setPlain, hv, hch, ne_eq, not_false_eq_true, if_true] at he ⊢
+    (hx : (p.obj y).cls.trait (targetName (p.obj o).cls.pfx n d) = .plain vid dflt cmp)
+    (hv : E.validate vid i v = .ok w) :
+    let t := targetName (p.obj o).cls.pfx n d
+    let old := ((p.obj y).dict t).getD dflt
+    let s := step E i p (.set y t v)
+    (fires E cmp old w = true → s.events.head? = some ⟨y, t, old, w⟩ ∧ (⟨o, n, old, w⟩ : Event) ∈ s.events) ∧
+    (fires E cmp old w = false → s.events = []) := by
+  intro t old s
+  have he := step_effect E i p (.set y t v)
+  have hs : s = setPlain E i p y t vid dflt cmp v := by simp only [s, step, t, hx]
+  rw [← show s = step E i p (.set y t v) from rfl, hs] at he
+  rw [hs]
+  simp only [setPlain, hv] at he ⊢
+  refine ⟨fun hf => ?_, fun hf => by simp only [old] at hf; simp [hf]⟩
+  have hf' : fires E cmp (((p.obj y).dict t).getD dflt) w = true := hf
+  simp only [hf', if_true]
   have L' := effect_linked he rfl rfl I L
-  have hnd : NonDefer ((p.obj y).cls.trait (targetName (p.obj o).cls.pfx n d)) := by rw [hx]; intro d'; simp
+  have hnd : NonDefer ((p.obj y).cls.trait t) := by rw [hx]; intro d'; simp
   have hmem := forwarder_of_linked L' (o := o) (by simpa using ho) (by simpa using hcls) (n := n) (d := d)
     (by simpa using htd) (by rw [setDict_nondefer_dict hnd htd]; exact hd) (y := y) (by simpa using hy)
   simp only [setDict_cls] at hmem
-  have hfuel : (p.setDict y (targetName (p.obj o).cls.pfx n d) (some w)).fuel = (p.size - 1) + 2 := by
+  have hfuel : (p.setDict y t (some w)).fuel = (p.size - 1) + 2 := by
     show p.size + 1 = p.size - 1 + 2
     have ho' : @LT.lt Nat _ o p.size := ho
     omega
   rw [hfuel]
-  exact notify_contains hmem _ _ _
+  exact ⟨by rw [notify_succ]; rfl, notify_contains hmem _ _ _⟩
+
+/-- **A first local PrototypedFrom assignment of an equal but distinct value is reported**, and so is any
+local assignment of another object: the notifiers are those of the deferring attribute (kind `delegate`,
+its wrappers accept every call), whether they are called is the identity test of `setattr_trait`
+(`cChanged`), not the equality test. -/
+theorem C11_prototype_assign_reports (E : Env) (i : Nat) (p : Pool) (o : ObjId) (n : Name) (d : DelegInfo)
+    (x : ObjId) (t : Name) (vid : Nat) (dflt : Val) (cmp : Cmp) (v w old : Val)
+    (htd : (p.obj o).cls.trait n = .defer d) (hm : d.modify = false)
+    (hw : walk p (p.obj o).cls.pfx 100 o d n = .ok (x, t, .plain vid dflt cmp))
+    (hv : E.validate vid i v = .ok w) (hr : read p p.fuel o n = .ok old) (hne : old ≠ w) :
+    (step E i p (.set o n v)).events.head? = some ⟨o, n, old, w⟩ := by
+  obtain ⟨_, _, h3⟩ := C11_prototype_assign E i p o n d x t vid dflt cmp v htd hm hw
+  obtain ⟨_, _, hev, _⟩ := h3 w old hv hr
+  rw [hev]
+  have hc : cChanged cmp old w = true := by simp [cChanged, hne]
+  simp only [hc, if_true]
+  show (notify _ (p.size + 1) o n old w).head? = _
+  rw [notify_succ]; rfl
+
+/-- `fires` distinguishes the modes on an equal-but-distinct value (here `==` identifies 1 and 101): reported
+under identity and none, not under equality; the very same object again is reported under none only. -/
+example : let E : Env := { validate := fun _ _ v => .ok v, eqv := fun a b => a % 100 == b % 100 }
+    fires E .identity 1 101 = true ∧ fires E .none 1 101 = true ∧ fires E .equality 1 101 = false ∧
+    fires E .identity 1 1 = false ∧ fires E .none 1 1 = true ∧ fires E .equality 1 2 = true := by decide
 
 /-- **Unlinked → not notified**, in every reachable state of every history (no hypothesis): a
 prototyped attribute that holds a local value has no forwarder, and no notification cascade started on
@@ -561,7 +599,8 @@ example : Chain (runPool idEnv 0 (mkPool [clsD, clsD, clsT]) bottomUp)
     (.succ (d := mkDelegate [] true) (y := 2) (by decide) (by decide) (by decide) (by intro h; cases h) (.zero 2 nx))
 
 /-- `C11_prototype_assign` / `C11_prototype_del_relinks`: a prototyped attribute over a typed one. -/
-example : walk protoPool (protoPool.obj 1).cls.pfx 100 1 (mkDelegate [] false) nx = .ok (2, nx, .plain 0 3) := by
+example : walk protoPool (protoPool.obj 1).cls.pfx 100 1 (mkDelegate [] false) nx
+    = .ok (2, nx, .plain 0 3 .equality) := by
   decide
 
 example : (protoPool.obj 1).dict nx = some 7 ∧ (protoPool.obj 1).fwd nx = none := by decide
